@@ -520,6 +520,9 @@ pub fn explore(rep: &Report, prop: &str, th: bool) -> Explored {
         Straddle(usize, usize),
         /// Full flush after the dictionary wrapped, then 1/2/3/all bytes: (input, cfg)
         WrapFull(usize, usize),
+        /// the largest possible coded block against output capacities around the compressor's own
+        /// buffer sizes (64 KiB code buffer, 85 196-byte output buffer): (cfg, capacity)
+        BigBlock(usize, u32),
     }
     let chunks_s: Vec<u32> = vec![0, 1, 2, REST];
     let caps_s: Vec<u32> = vec![1, 5, LARGE];
@@ -609,6 +612,15 @@ pub fn explore(rep: &Report, prop: &str, th: bool) -> Explored {
             }
         }
     }
+    let bigblock = corpus::max_block_input();
+    let bigblock_cfgs: Vec<Cfg> = vec![Cfg { level: 2, strat: 4, zlib: false, wbits: 15, ctor: 0 }, Cfg { level: 6, strat: 4, zlib: true, wbits: 15, ctor: 0 }, Cfg { level: 6, strat: 0, zlib: false, wbits: 15, ctor: 0 }];
+    if prop == "C02" {
+        for c in 0..bigblock_cfgs.len() {
+            for cap in [65_535u32, 65_536, 65_537, 70_000, 85_195, 85_196, 85_197] {
+                work.push(Work::BigBlock(c, cap));
+            }
+        }
+    }
     for i in 0..long.len() {
         for c in 0..cfgs.len().min(if th { 6 } else { 4 }) {
             if !th && (i + c) % 2 != 0 {
@@ -622,7 +634,7 @@ pub fn explore(rep: &Report, prop: &str, th: bool) -> Explored {
     let accs = par_for(work.len(), || Acc { secs: [0.0; 3], stats: Stats::default(), cov: BTreeMap::new(), runs: 0 }, |ix, acc| {
         watchdog::tick(ix as u64, 0);
         let t0 = std::time::Instant::now();
-        let kidx = match work[ix] { Work::Full(..) => 0, Work::DevMed(..) | Work::FlushSeq(..) | Work::Straddle(..) => 1, Work::DevLong(..) | Work::WrapFull(..) => 2 };
+        let kidx = match work[ix] { Work::Full(..) => 0, Work::DevMed(..) | Work::FlushSeq(..) | Work::Straddle(..) => 1, Work::DevLong(..) | Work::WrapFull(..) | Work::BigBlock(..) => 2 };
         match work[ix] {
             Work::Full(i, c, e, a0) => {
                 let m = CompModel { prop, input: &small[i].1, name: &small[i].0, cfg: cfgs[c], entry: entries[e], rep: &rep, chunks: chunks_s.clone(), caps: caps_s.clone(), flushes: flushes_s.clone(), cov: Mutex::new(BTreeMap::new()), ffi_every: 5 };
@@ -875,6 +887,25 @@ pub fn explore(rep: &Report, prop: &str, th: bool) -> Explored {
                     *acc.cov.entry(k).or_insert(0) += v;
                 }
             }
+            Work::BigBlock(c, cap) => {
+                let m = CompModel { prop, input: &bigblock.data, name: &bigblock.name, cfg: bigblock_cfgs[c], entry: Entry::Compress, rep: &rep, chunks: vec![], caps: vec![], flushes: vec![], cov: Mutex::new(BTreeMap::new()), ffi_every: 7 };
+                // everything offered at once with a `cap`-byte buffer, repeated until the input is
+                // consumed, then Finish with the same capacity
+                let mut st = m.init();
+                let mut path = vec![];
+                let mut n = 0;
+                while !m.terminal(&st) && n < 400 {
+                    let a = m.policy_action(&st, Act { k: REST, cap, flush: F_NONE });
+                    path.push(a);
+                    acc.stats.transitions += 1;
+                    if !m.step(&mut st, a, &path) {
+                        break;
+                    }
+                    n += 1;
+                }
+                acc.stats.executions += 1;
+                acc.runs += 1;
+            }
             Work::WrapFull(i, c) => {
                 let (inp, cut) = &wrapfull[i];
                 let m = CompModel { prop, input: &inp.data, name: &inp.name, cfg: wrapfull_cfgs[c], entry: Entry::Compress, rep: &rep, chunks: vec![], caps: vec![], flushes: vec![], cov: Mutex::new(BTreeMap::new()), ffi_every: 7 };
@@ -1040,7 +1071,7 @@ pub fn replay(v: &Value, prop: &str) -> Option<String> {
     let name = v["input_name"].as_str()?.to_string();
     let input = match v["input_hex"].as_str() {
         Some(h) => unhex(h),
-        None => corpus::long_inputs().into_iter().chain(corpus::medium_inputs()).chain(corpus::straddle_inputs(true)).chain(corpus::wrapfull_inputs().into_iter().map(|x| x.0)).find(|i| i.name == name)?.data,
+        None => corpus::long_inputs().into_iter().chain(corpus::medium_inputs()).chain(corpus::straddle_inputs(true)).chain(corpus::wrapfull_inputs().into_iter().map(|x| x.0)).chain(std::iter::once(corpus::max_block_input())).find(|i| i.name == name)?.data,
     };
     let entry = match v["entry"].as_str()? {
         "Compress" => Entry::Compress,
